@@ -145,6 +145,9 @@ class VM(Machine):
                 f = cur.cls.find(name, self.loader)
                 if f and f[1] == "method":
                     return self.call_func(f[2], [cur, val], {})
+                if "__data__" in cur.fields and name in ("__iadd__", "__ior__"):
+                    self.aug(op, cur.fields["__data__"], val)     # inherited list.__iadd__ / set.__ior__
+                    return cur
                 hook = self.spec.opaque_hooks.get("inplace")
                 if hook:
                     r = hook(self, name, cur, val)
